@@ -144,7 +144,7 @@ Ph ==
   CASE op.phase = "firstdone" /\ lastRes.res \in {"Answer", "Floundered"} -> "second"
     [] op.phase = "second" /\ lastRes.res \in {"Answer", "Floundered"} -> "loop"
     [] op.phase = "second" /\ lastRes.res = "NoMoreSolutions" /\ op.amb1 -> "loop"
-    [] op.phase = "multidone" /\ lastRes.res \in {"Answer", "Floundered"} -> "multipeek"
+    [] op.phase = "multidone" /\ lastRes.res = "Answer" -> "multipeek"
     [] OTHER -> op.phase
 
 \* event Op{kind}: a public solver call starts (emitted by the harness)
@@ -160,6 +160,7 @@ DoTableNew(e) ==
      \/ pc = "select" /\ held[1].sel = 0 /\ held[1].lits # <<>>
   /\ e.table = Len(tables)
   /\ e.key \notin TableKeys                       \* one table per u-canonical goal
+  /\ pc = "select" => ~e.big                      \* a subgoal beyond the size limit flounders instead (FlounderLit): C09
   /\ e.flo => e.strands = <<>>
   /\ \A i \in 1..Len(e.strands) :
         e.strands[i].sel = 0 /\ e.strands[i].last = 0 /\ e.strands[i].flo = <<>>
@@ -443,6 +444,7 @@ DoAnswerNew(e) ==
   /\ (held[1].flo # <<>>) => held[1].amb          \* assert!(!floundered || ambiguous)
   /\ ~tables[TopT].flo
   /\ e.key \notin AnswerKeys(TopT)
+  /\ ~e.big                                       \* an answer beyond the size limit flounders the table instead (AnswerTooLarge): C09
   /\ e.idx = Len(tables[TopT].answers)
   /\ e.amb = held[1].amb
   /\ e.trivial => e.trivsub /\ e.del = <<>>       \* an answer with delayed subgoals is not trivial
@@ -645,9 +647,14 @@ DoAggMerge(e) ==
 
 \* event Cb{kind, more}: solve_multiple invoked the caller's closure (emitted by the harness)
 DoCb(e) ==
-  /\ pc = "idle" /\ op.kind = "multi" /\ op.phase = "multipeek" /\ PeekDone
-  /\ e.more = (lastRes.res # "NoMoreSolutions")
-  /\ op' = [op EXCEPT !.phase = "multicb", !.n = op.n + 1]
+  /\ pc = "idle" /\ op.kind = "multi"
+  /\ \/ /\ op.phase = "multipeek" /\ PeekDone
+        /\ e.more = (lastRes.res # "NoMoreSolutions")
+        /\ op' = [op EXCEPT !.phase = "multicb", !.n = op.n + 1]
+     \* a floundered table is reported once, as the last result (fix F23)
+     \/ /\ op.phase = "multidone" /\ lastRes.res = "Floundered"
+        /\ e.kind = "Floundered" /\ ~e.more
+        /\ op' = [op EXCEPT !.phase = "multiflo", !.n = op.n + 1]
   /\ UNCHANGED <<tables, clock, stack, pc, held, exitRes, stT, stA, lastRes, lost>>
 
 \* event OpEnd{class}: the public call returned (emitted by the harness)
@@ -656,6 +663,7 @@ DoOpEnd(e) ==
   /\ \/ op.kind \in {"solve", "limited"} /\ op.phase = "done:" \o e.class
      \/ op.kind = "multi" /\ e.class = "Done" /\ op.phase = "multidone" /\ lastRes.res = "NoMoreSolutions"
      \/ op.kind = "multi" /\ e.class = "Stopped" /\ op.phase = "multicb"
+     \/ op.kind = "multi" /\ e.class \in {"Done", "Stopped"} /\ op.phase = "multiflo"
   /\ op' = NoOp
   /\ UNCHANGED <<tables, clock, stack, pc, held, exitRes, stT, stA, lastRes, lost>>
 
